@@ -1296,7 +1296,7 @@ def check(rep, tier, seed, variant="hooks"):
     env = {"CHIBI_VERIF_HEAPCHECK": 1}
     quick = tier == "quick"
     # (groups, cyclic groups, deep groups, histories) per round; rounds bound the memory held at any time
-    rounds = [(2400, 500, 6, 260)] if quick else [(5500, 600, 3, 1000)] * 20
+    rounds = [(2400, 500, 6, 260)] if quick else [(5500, 600, 3, 1000)] * 16
     tot = {"groups": 0, "cyc": 0, "pairs": 0, "hists": 0, "ops": 0, "procs": 0}
     for rno, (n_groups, n_cyc, n_deep, n_hist) in enumerate(rounds):
         one_round(rep, real, rng, b, env, quick, rno, n_groups, n_cyc, n_deep, n_hist, tot)
